@@ -161,6 +161,9 @@ class Orchestrator:
                     f"Skipping strategy: {strategy.name} on CV-fold: "
                     f"{cv_fold} of dataset: {dataset.name}"
                 )
+                # existing results still belong to this benchmark: keep them in the
+                # registry of strategy and dataset names of the results object
+                self.results._append_key(strategy.name, dataset.name)
                 continue
 
             # split data into training and test sets
